@@ -185,6 +185,65 @@ func (c c09ConcCase) run() c09ConcResult {
 	return res
 }
 
+
+// hammer: free-running verifiers while Accept(B) runs (no parking). Covers unsafe gaps that contain
+// no accessor call (e.g. an Accept that copies the block's fields first, publishes the height,
+// unlocks, and only then evicts / fills `seen`): `seen` is pre-filled with nA entries that expire
+// just before B, so that the eviction inside Accept takes a while. Detection of such a variant is
+// probabilistic (never a false alarm); the parked scenarios above are the deterministic part.
+func c09Hammer(rounds, nA int) (verdicts int, viols []string) {
+	ctx := context.Background()
+	const W = int64(1000)
+	for round := 0; round < rounds; round++ {
+		gen := newVfBlock(0, 999999, 0, 0, nil)
+		var atx []vfTx
+		for i := 0; i < nA; i++ {
+			atx = append(atx, vfTx{n: uint64(1000 + i), expiry: 9})
+		}
+		a := newVfBlock(1, 0, 5, 1, atx)
+		btx := []vfTx{{n: 200, expiry: 20}, {n: 201, expiry: 30}}
+		b := newVfBlock(2, 1, 10, 2, btx)
+		ch := newVfBlock(3, 2, 11, 3, []vfTx{{n: 300, expiry: 40}, btx[round%2]})
+		idx := &vfIndex{blocks: map[ids.ID]*vfBlock{gen.GetID(): gen, a.GetID(): a, b.GetID(): b, ch.GetID(): ch}}
+		w, _ := NewTimeValidityWindow[vfTx](ctx, logging.NoLog{}, trace.Noop, idx, a, func(int64) int64 { return W })
+		var stop atomic.Bool
+		var bad atomic.Int32
+		var n atomic.Int32
+		var wg sync.WaitGroup
+		for g := 0; g < 3; g++ {
+			wg.Add(1)
+			go func(g int) {
+				defer wg.Done()
+				for last := false; ; {
+					if g%2 == 0 {
+						if w.VerifyExpiryReplayProtection(ctx, ch) == nil {
+							bad.Add(1)
+						}
+					} else if bits, err := w.IsRepeat(ctx, b, ch.ts, ch.txs); err != nil || !bits.Contains(1) {
+						bad.Add(1)
+					}
+					n.Add(1)
+					if last {
+						return
+					}
+					last = stop.Load() // one more iteration after Accept has returned
+				}
+			}(g)
+		}
+		for n.Load() < 3 { // let the verifiers start
+			time.Sleep(50 * time.Microsecond)
+		}
+		w.Accept(b)
+		stop.Store(true)
+		wg.Wait()
+		verdicts += int(n.Load())
+		if k := bad.Load(); k > 0 {
+			viols = append(viols, fmt.Sprintf("repeat-accepted-during-concurrent-accept\x00round %d: %d free-running verifications / IsRepeat calls concurrent with Accept(B) did not report the repeat of a tx of B", round, k))
+		}
+	}
+	return verdicts, viols
+}
+
 func c09ConcParse(l string) (c c09ConcCase, ok bool) {
 	f := strings.Fields(l)
 	if len(f) != 11 || f[0] != "conc" {
@@ -219,6 +278,7 @@ func TestVerifC09Conc(t *testing.T) {
 			c.expOff = int64(rng.Intn(int(c.W-c.gapC) + 1)) // keeps the repeated tx valid in B: C.ts+off <= B.ts+W
 			lines = append(lines, c.line())
 		}
+		lines = append(lines, fmt.Sprintf("hammer %d 4000", r.N(15, 300)))
 	}
 	// every park point waits up to c09ConcWait for a blocked verifier: run scenarios concurrently
 	results := make([]c09ConcResult, len(lines))
@@ -227,6 +287,9 @@ func TestVerifC09Conc(t *testing.T) {
 	var wg sync.WaitGroup
 	sem := make(chan struct{}, 16)
 	for i, l := range lines {
+		if hf := strings.Fields(l); len(hf) == 3 && hf[0] == "hammer" {
+			continue // handled after the parked scenarios
+		}
 		cases[i], oks[i] = c09ConcParse(l)
 		if !oks[i] {
 			continue
@@ -241,6 +304,21 @@ func TestVerifC09Conc(t *testing.T) {
 	}
 	wg.Wait()
 	for i, l := range lines {
+		if hf := strings.Fields(l); len(hf) == 3 && hf[0] == "hammer" {
+			rounds, nA := int(verifh.U(hf[1])), int(verifh.U(hf[2]))
+			if rounds > 10000 || nA > 1_000_000 {
+				r.Emit(l, "bad-op")
+				continue
+			}
+			n, viols := c09Hammer(rounds, nA)
+			r.Emit(l, fmt.Sprintf("rounds=%d verdicts=%d not-duplicate=%d", rounds, n, len(viols)))
+			r.Distinct(l)
+			for _, v := range viols {
+				kv := strings.SplitN(v, "\x00", 2)
+				r.Violation(kv[0], "%s: %s", kv[1], l)
+			}
+			continue
+		}
 		if !oks[i] {
 			r.Emit(l, "bad-op")
 			continue
